@@ -27,6 +27,8 @@ sys.path.insert(0, VERIF)
 sys.path.insert(0, REPO)
 
 import specs.prims as prims          # noqa: E402
+from pyvc.cdef import Contract as _Contract   # noqa: E402
+_Contract.NATIVE_SIDE = True
 import specs.oracles as oracles      # noqa: E402
 
 
